@@ -124,7 +124,7 @@ func RandomCFG(r *rng.R, p CFGParams) *Spec {
 // BigCFG: a grammar with more than 64 table columns (2 + terminals + nonterminals), short rules.
 func BigCFG(r *rng.R) *Spec {
 	nn := r.Range(18, 30)
-	nt := r.Range(40, 60)
+	nt := r.Range(40, 95) // symbol ids beyond 64 and table rows beyond 64 columns
 	s := &Spec{Family: "big", StartDecl: true}
 	for i := 0; i < nn; i++ {
 		s.NTs = append(s.NTs, NT{Name: fmt.Sprintf("n%d", i)})
@@ -214,32 +214,32 @@ func AddRandomPrec(s *Spec, r *rng.R) {
 
 // Classics: family F2, the textbook separators.
 var classicsSrc = map[string]string{
-	"lr0-paren":     "S: '(' S ')' | 'x'",
-	"slr-expr":      "E: E '+' T | T ; T: T '*' F | F ; F: '(' E ')' | ID",
-	"lalr-not-slr":  "S: L EQ R | R ; L: STAR R | ID ; R: L",
-	"lr1-not-lalr":  "S: 'a' E 'a' | 'b' E 'b' | 'a' F 'b' | 'b' F 'a' ; E: 'e' ; F: 'e'",
-	"nqlalr":        "S: 'a' G 'd' | 'a' A 'c' | 'b' A 'd' | 'b' G 'c' ; A: B ; B: G ; G: 'g'",
-	"nqlalr-dp":     "S: 'a' 'g' 'd' | 'a' A 'c' | 'b' A 'd' | 'b' 'g' 'c' ; A: B ; B: 'g'",
-	"nullable":      "S: A B C 'x' ; A: 'a' | ; B: 'b' | ; C: 'c' |",
-	"nullable2":     "S: A S 'b' | ; A: 'a' |",
-	"reads-chain":   "S: 'x' A B C 'y' | 'x' A 'z' ; A: 'a' ; B: | 'b' ; C: | 'c'",
-	"includes-scc":  "S: A 'x' ; A: 'a' B | 'c' ; B: 'b' A | 'd'",
-	"right-rec":     "L: ID ',' L | ID",
-	"left-rec":      "L: L ',' ID | ID",
-	"cyclic":        "S: A | 'x' ; A: S | 'y'",
-	"self-cycle":    "A: A | 'a'",
-	"dangling-else": "S: IF 'c' THEN S | IF 'c' THEN S ELSE S | 'o'",
-	"ambig-expr":    "E: E '+' E | E '*' E | NUM",
-	"prec-expr":     "%left '+' '-' ; %left '*' '/' ; %right '^' ; E: E '+' E | E '-' E | E '*' E | E '/' E | E '^' E | '(' E ')' | NUM",
-	"nonassoc":      "%nonassoc '<' ; %left '+' ; E: E '<' E | E '+' E | NUM",
-	"unary":         "%left '+' '-' ; %left '*' ; %right UMINUS ; E: E '+' E | E '-' E | E '*' E | '-' E %prec UMINUS | NUM",
-	"rr-conflict":   "S: A 'x' | B 'x' ; A: 'a' ; B: 'a'",
-	"opt-list":      "P: L ; L: L I | ; I: ID ';' | ';'",
-	"epsilon-start": "S: | S 'a'",
-	"json-like":     "V: '{' M '}' | '[' Es ']' | STR | NUM ; M: | P | M ',' P ; P: STR ':' V ; Es: | V | Es ',' V",
-	"palin":         "S: 'a' S 'a' | 'b' S 'b' | 'a' | 'b' |",
-	"lr2":           "S: A 'x' 'y' | B 'x' 'z' ; A: 'a' ; B: 'a'",
-	"default-start": "start: start 'a' | 'b'",
+	"lr0-paren":            "S: '(' S ')' | 'x'",
+	"slr-expr":             "E: E '+' T | T ; T: T '*' F | F ; F: '(' E ')' | ID",
+	"lalr-not-slr":         "S: L EQ R | R ; L: STAR R | ID ; R: L",
+	"lr1-not-lalr":         "S: 'a' E 'a' | 'b' E 'b' | 'a' F 'b' | 'b' F 'a' ; E: 'e' ; F: 'e'",
+	"nqlalr":               "S: 'a' G 'd' | 'a' A 'c' | 'b' A 'd' | 'b' G 'c' ; A: B ; B: G ; G: 'g'",
+	"nqlalr-dp":            "S: 'a' 'g' 'd' | 'a' A 'c' | 'b' A 'd' | 'b' 'g' 'c' ; A: B ; B: 'g'",
+	"nullable":             "S: A B C 'x' ; A: 'a' | ; B: 'b' | ; C: 'c' |",
+	"nullable2":            "S: A S 'b' | ; A: 'a' |",
+	"reads-chain":          "S: 'x' A B C 'y' | 'x' A 'z' ; A: 'a' ; B: | 'b' ; C: | 'c'",
+	"includes-scc":         "S: A 'x' ; A: 'a' B | 'c' ; B: 'b' A | 'd'",
+	"right-rec":            "L: ID ',' L | ID",
+	"left-rec":             "L: L ',' ID | ID",
+	"cyclic":               "S: A | 'x' ; A: S | 'y'",
+	"self-cycle":           "A: A | 'a'",
+	"dangling-else":        "S: IF 'c' THEN S | IF 'c' THEN S ELSE S | 'o'",
+	"ambig-expr":           "E: E '+' E | E '*' E | NUM",
+	"prec-expr":            "%left '+' '-' ; %left '*' '/' ; %right '^' ; E: E '+' E | E '-' E | E '*' E | E '/' E | E '^' E | '(' E ')' | NUM",
+	"nonassoc":             "%nonassoc '<' ; %left '+' ; E: E '<' E | E '+' E | NUM",
+	"unary":                "%left '+' '-' ; %left '*' ; %right UMINUS ; E: E '+' E | E '-' E | E '*' E | '-' E %prec UMINUS | NUM",
+	"rr-conflict":          "S: A 'x' | B 'x' ; A: 'a' ; B: 'a'",
+	"opt-list":             "P: L ; L: L I | ; I: ID ';' | ';'",
+	"epsilon-start":        "S: | S 'a'",
+	"json-like":            "V: '{' M '}' | '[' Es ']' | STR | NUM ; M: | P | M ',' P ; P: STR ':' V ; Es: | V | Es ',' V",
+	"palin":                "S: 'a' S 'a' | 'b' S 'b' | 'a' | 'b' |",
+	"lr2":                  "S: A 'x' 'y' | B 'x' 'z' ; A: 'a' ; B: 'a'",
+	"default-start":        "start: start 'a' | 'b'",
 	"default-start-nested": "start: '(' start ')' | '[' start ']' | item ; item: 'a' | 'b' item",
 }
 
@@ -448,6 +448,7 @@ func DecorateInt(s *Spec, r *rng.R) {
 		// and tokens that only appear in a precedence line stay untagged
 		if r.Chance(3, 4) && s.Terms[i].Decl == DeclToken {
 			s.Terms[i].Tag = s.Fields[r.Intn(nf)].Name
+			s.Terms[i].TagByType = s.Terms[i].Name != "" && r.Chance(1, 5)
 		} else {
 			s.Terms[i].Tag = ""
 		}
@@ -467,6 +468,11 @@ func DecorateInt(s *Spec, r *rng.R) {
 				term := &Expr{Op: '*', L: &Expr{Op: 'd', K: k}, R: &Expr{Op: 'k', K: r.Range(2, 31)}}
 				e = &Expr{Op: '+', L: e, R: term}
 			}
+		}
+		// user code refers to its own package-level variables
+		if r.Chance(1, 4) {
+			g := UserGlobals[r.Intn(len(UserGlobals))]
+			e = &Expr{Op: '+', L: e, R: &Expr{Op: 'g', S: g.Name, K: g.Val}}
 		}
 		rl.Act = e
 		// some rules do not assign $$ at all: the value of their left-hand side is then the zero value
@@ -535,6 +541,7 @@ func TokenMix(r *rng.R) *Spec {
 		}
 		if r.Chance(1, 2) {
 			t.Tag = rng.Pick(r, []string{"fa", "fb"})
+			t.TagByType = t.Name != "" && t.Decl == DeclToken && !t.Redecl && r.Chance(1, 4)
 		}
 		s.Terms = append(s.Terms, t)
 	}
@@ -780,5 +787,87 @@ func MakeUnusable(base *Spec, kind string, r *rng.R) *Spec {
 			Rule{L: c, R: []Sym{{NT: true, I: c}, someTerm()}, Prec: -1})
 		refFrom(a)
 	}
+	return s
+}
+
+// ManyRules: a command-language grammar with 260-420 productions (rule indices beyond one byte), simple shapes so that
+// generation stays fast:  prog: | prog cmd ; cmd: K_i arg_j ';' ... ; a handful of argument nonterminals.
+func ManyRules(r *rng.R) *Spec { return ManyRulesN(r, r.Range(260, 420)) }
+
+// ManyRulesN: n productions (about two parser states per production; the generator refuses 2000 states and more).
+func ManyRulesN(r *rng.R, n int) *Spec {
+	s := &Spec{Family: "many-rules", StartDecl: true, KnownLALR: true}
+	s.NTs = []NT{{Name: "prog"}, {Name: "cmd"}}
+	nargs := r.Range(3, 6)
+	for i := 0; i < nargs; i++ {
+		s.NTs = append(s.NTs, NT{Name: fmt.Sprintf("arg%d", i)})
+	}
+	nk := r.Range(36, 52) // keywords
+	for i := 0; i < nk; i++ {
+		s.Terms = append(s.Terms, Term{Name: fmt.Sprintf("K%d", i), Decl: DeclToken})
+	}
+	semi := len(s.Terms)
+	s.Terms = append(s.Terms, Term{Lit: ';', Decl: DeclUseOnly})
+	atoms := []int{}
+	for _, n := range []string{"NUM", "STR", "IDENT", "REG"} {
+		atoms = append(atoms, len(s.Terms))
+		s.Terms = append(s.Terms, Term{Name: n, Decl: DeclToken})
+	}
+	s.Rules = append(s.Rules, Rule{L: 0, Prec: -1}, Rule{L: 0, R: []Sym{{NT: true, I: 0}, {NT: true, I: 1}}, Prec: -1})
+	for a := 0; a < nargs; a++ {
+		s.Rules = append(s.Rules, Rule{L: 2 + a, R: []Sym{{I: atoms[a%len(atoms)]}}, Prec: -1},
+			Rule{L: 2 + a, R: []Sym{{I: atoms[(a+1)%len(atoms)]}, {I: atoms[a%len(atoms)]}}, Prec: -1})
+	}
+	for i := 0; len(s.Rules) < n; i++ {
+		// cmd : K_a K_b? arg ... ';'   distinct first two keywords make every command unique
+		a, b := i%nk, (i/nk)%nk
+		rule := Rule{L: 1, R: []Sym{{I: a}, {I: b}}, Prec: -1}
+		for k := 0; k < r.Intn(3); k++ {
+			rule.R = append(rule.R, Sym{NT: true, I: 2 + r.Intn(nargs)})
+		}
+		rule.R = append(rule.R, Sym{I: semi})
+		s.Rules = append(s.Rules, rule)
+	}
+	return s
+}
+
+// DenseOps: k independent expression languages, each with m binary operators on m precedence levels, selected by a
+// leading keyword:  top: KW_i e_i ;  e_i: e_i OP_i_j e_i | ATOM_i .  Rows of the states "e op e ." are dense (one
+// shift or reduce per operator), so the packed vectors get long: about k*m*m/2 explicit entries in roughly 2*k*m states.
+func DenseOps(k, m int) *Spec {
+	s := &Spec{Family: "dense-ops", StartDecl: true, Fields: []Field{{"fa", "int"}}}
+	s.NTs = []NT{{Name: "top", Tag: "fa"}}
+	for i := 0; i < k; i++ {
+		s.NTs = append(s.NTs, NT{Name: fmt.Sprintf("e%d", i), Tag: "fa"})
+	}
+	for i := 0; i < k; i++ {
+		kw := len(s.Terms)
+		s.Terms = append(s.Terms, Term{Name: fmt.Sprintf("KW%d", i), Decl: DeclToken})
+		atom := len(s.Terms)
+		s.Terms = append(s.Terms, Term{Name: fmt.Sprintf("ATOM%d", i), Decl: DeclToken, Tag: "fa"})
+		s.Rules = append(s.Rules, Rule{L: 0, R: []Sym{{I: kw}, {NT: true, I: 1 + i}}, Prec: -1, Act: &Expr{Op: 'd', K: 2}})
+		s.Rules = append(s.Rules, Rule{L: 1 + i, R: []Sym{{I: atom}}, Prec: -1, Act: &Expr{Op: 'd', K: 1}})
+		for j := 0; j < m; j++ {
+			op := len(s.Terms)
+			s.Terms = append(s.Terms, Term{Name: fmt.Sprintf("OP%d_%d", i, j), Decl: DeclPrecOnly})
+			s.Levels = append(s.Levels, Level{Assoc: j % 2, Terms: []int{op}})
+			s.Rules = append(s.Rules, Rule{L: 1 + i, R: []Sym{{NT: true, I: 1 + i}, {I: op}, {NT: true, I: 1 + i}}, Prec: -1,
+				Act: &Expr{Op: '+', L: &Expr{Op: '*', L: &Expr{Op: 'd', K: 1}, R: &Expr{Op: 'k', K: 3}}, R: &Expr{Op: 'd', K: 3}}})
+		}
+	}
+	return s
+}
+
+// BlockCommands: n block commands  K_i '(' expr ')' stmt K_{i+1} expr ';'  plus assignments, blocks and a small
+// expression language. Every statement-start state has one shift per keyword, so with n around 120 the automaton has
+// about 1000 states and the packed action vector far more than 10 000 entries (a single line of > 64 KiB of text).
+func BlockCommands(n int) *Spec {
+	src := "%left '+' '-' ; %left '*' '/' ; prog: | prog stmt ; stmt: ID '=' expr ';' | '{' prog '}'"
+	for i := 0; i < n; i++ {
+		src += fmt.Sprintf(" | K%d '(' expr ')' stmt K%d expr ';'", i, (i+1)%n)
+	}
+	src += " ; expr: expr '+' expr | expr '-' expr | expr '*' expr | expr '/' expr | '(' expr ')' | NUM | ID"
+	s := MustDSL(src)
+	s.Family = "block-commands"
 	return s
 }
